@@ -18,3 +18,4 @@ CFG = {
 }
 CFG['level_text'] += " The forged-log family has a tenth shape: the signature block of the client's stored head under the forged tree text."
 CFG['level_text'] += ' In cold mode half of the cases start from the stored head of the still empty log.'
+CFG['level_text'] += ' Two honest databases whose names differ in a trailing or doubled slash share one cache: every lookup must succeed.'
